@@ -28,6 +28,7 @@ pub open spec fn route_msgs_ok(w: World, router: Seq<char>, ops: Seq<SwapOperati
 //%%sig
     ensures
         /*[C13 route.empty-rejected]*/ operations@.len() == 0 ==> r is Err,
+        /*[C13 route.shape-enforced]*/ r is Ok ==> dangling(operations@).len() == 1,
         /*[C11,C13,C07 route.messages]*/ r is Ok ==> route_msgs_ok(deps.querier.world(), env.contract.address.0@, operations@, minimum_receive,
             (if to is Some { to->Some_0.0@ } else { sender.0@ }), r->Ok_0.msgs()),
         /*[C14,C07 route.no-write]*/ *final(deps.storage) == *old(deps.storage),
@@ -51,6 +52,7 @@ pub open spec fn route_msgs_ok(w: World, router: Seq<char>, ops: Seq<SwapOperati
     ensures
         /*[C11,C13,C07 hook-route.messages]*/ decode::<Cw20HookMsg>(cw20_msg.msg) matches Ok(Cw20HookMsg::ExecuteSwapOperations { operations, minimum_receive, to }) ==> r is Ok ==>
             route_msgs_ok(deps.querier.world(), env.contract.address.0@, operations@, minimum_receive, (if to is Some { to->Some_0@ } else { cw20_msg.sender@ }), r->Ok_0.msgs()),
+        /*[C13 hook-route.shape-enforced]*/ decode::<Cw20HookMsg>(cw20_msg.msg) matches Ok(Cw20HookMsg::ExecuteSwapOperations { operations, minimum_receive, to }) ==> r is Ok ==> operations@.len() > 0 && dangling(operations@).len() == 1,
         /*[C14 hook-route.undecodable-rejected]*/ decode::<Cw20HookMsg>(cw20_msg.msg) is Err ==> r is Err,
 //%end
 
@@ -60,6 +62,7 @@ pub open spec fn route_msgs_ok(w: World, router: Seq<char>, ops: Seq<SwapOperati
     ensures
         /*[C11,C13,C07 exec-route.messages]*/ msg matches ExecuteMsg::ExecuteSwapOperations { operations, minimum_receive, to } ==> r is Ok ==>
             route_msgs_ok(deps.querier.world(), env.contract.address.0@, operations@, minimum_receive, (if to is Some { to->Some_0@ } else { info.sender.0@ }), r->Ok_0.msgs()),
+        /*[C13 exec-route.shape-enforced]*/ msg matches ExecuteMsg::ExecuteSwapOperations { operations, minimum_receive, to } ==> r is Ok ==> operations@.len() > 0 && dangling(operations@).len() == 1,
         /*[C14,C13 exec-hop.only-self]*/ msg is ExecuteSwapOperation ==> r is Ok ==> env.contract.address.0@ == info.sender.0@,
         /*[C13,C07 exec-hop.spends-own-balance]*/ msg matches ExecuteMsg::ExecuteSwapOperation { operation, to } ==> r is Ok ==> old(deps.storage).config is Some && r->Ok_0.msgs().len() == 1 && ({
             let w = deps.querier.world(); let factory = human_of(old(deps.storage).config->Some_0.halo_factory.0@);
